@@ -154,6 +154,7 @@ class cache(dict):
     If key in keys is not found, d is returned if given, otherwise KeyError is raised."""
         if not hasattr(keys, '__iter__'):
             return self.pop(keys, *value)
+        keys = list(keys) # (may be an iterator, or a view of this dict)
         if len(value):
             return [self.pop(k, *value) for k in keys]
         memo = self.fromkeys(self.keys())
@@ -471,6 +472,7 @@ class dir_archive(archive):
     If key in keys is not found, d is returned if given, otherwise KeyError is raised."""
         if not hasattr(keys, '__iter__'):
             return self.pop(keys, *value)
+        keys = list(keys) # (may be an iterator, or a view of this dict)
         if len(value):
             return [self.pop(k, *value) for k in keys]
         memo = self._keydict() # 'shadow' dict for desired error behavior
@@ -892,6 +894,7 @@ class file_archive(archive):
     If key in keys is not found, d is returned if given, otherwise KeyError is raised."""
         if not hasattr(keys, '__iter__'):
             return self.pop(keys, *value)
+        keys = list(keys) # (may be an iterator, or a view of this dict)
         memo = self.__asdict__()
         res = [memo.pop(k, *value) for k in keys]
         self.__save__(memo)
@@ -1148,6 +1151,7 @@ if sql:
     If key in keys is not found, d is returned if given, otherwise KeyError is raised."""
           if not hasattr(keys, '__iter__'):
               return self.pop(keys, *value)
+          keys = list(keys) # (may be an iterator, or a view of this dict)
           if len(value):
               return [self.pop(k, *value) for k in keys]
           memo = self.fromkeys(self._keys()) # 'shadow' dict
@@ -1489,6 +1493,7 @@ if sql:
     If key in keys is not found, d is returned if given, otherwise KeyError is raised."""
           if not hasattr(keys, '__iter__'):
               return self.pop(keys, *value)
+          keys = list(keys) # (may be an iterator, or a view of this dict)
           if len(value):
               return [self.pop(k, *value) for k in keys]
           memo = self.fromkeys(self.keys()) # 'shadow' dict
@@ -1725,6 +1730,7 @@ else:
     If key in keys is not found, d is returned if given, otherwise KeyError is raised."""
           if not hasattr(keys, '__iter__'):
               return self.pop(keys, *value)
+          keys = list(keys) # (may be an iterator, or a view of this dict)
           if len(value):
               return [self.pop(k, *value) for k in keys]
           memo = self.fromkeys(self.keys()) # 'shadow' dict
@@ -2017,6 +2023,7 @@ if hdf:
     If key in keys is not found, d is returned if given, otherwise KeyError is raised."""
           if not hasattr(keys, '__iter__'):
               return self.pop(keys, *value)
+          keys = list(keys) # (may be an iterator, or a view of this dict)
           if len(value):
               return [self.pop(k, *value) for k in keys]
           memo = self.fromkeys(self.keys()) # 'shadow' dict
@@ -2209,6 +2216,7 @@ if hdf:
     If key in keys is not found, d is returned if given, otherwise KeyError is raised."""
           if not hasattr(keys, '__iter__'):
               return self.pop(keys, *value)
+          keys = list(keys) # (may be an iterator, or a view of this dict)
           if len(value):
               return [self.pop(k, *value) for k in keys]
           memo = self._keydict() # 'shadow' dict for desired error behavior
